@@ -1,6 +1,6 @@
 (* C15 — One decode call consumes exactly one picture of a stream. *)
 From H263V Require Import base.Prelude model.Types model.Reader model.Header model.Syntax model.Recon model.Decoder spec.SpecHeader
-  proofs.LoopBound proofs.Frame.
+  proofs.LoopBound proofs.Frame proofs.StateRefine gen.GenPLoop bridge.BridgePReach.
 
 (* THE PROPERTY, one call: a decode call that succeeds on a complete picture (all mb_per_line x mb_height macroblocks
    present: `picture_complete`) returns the same state - the same picture - and stops at the same place whatever bits
@@ -12,6 +12,14 @@ Theorem C15_following_bits_irrelevant : forall s r0 s' r' x,
   decode_next_picture s (ext_r x r0) = Ok (s', ext_r x r').
 Proof. exact decode_next_picture_frame. Qed.
 
+(* ... and the same for decode_next_picture AS REGENERATED FROM THE SOURCE on this run (gen/GenPLoop.v), on every state a
+   decoder can reach: the completion test of the macroblock loop, re-read from the source, is what makes the call stop *)
+Theorem C15_source_following_bits_irrelevant : forall gq o ops r0 s' r' x,
+  let s := fold_left step ops (new_state o) in
+  p_decode_next_picture gq s r0 = Ok (s', r') ->
+  picture_complete (st_opts s) (get_last_picture s) (running_options s) r0 ->
+  p_decode_next_picture gq s (ext_r x r0) = Ok (s', ext_r x r').
+Proof. exact source_frame. Qed.
 (* THE PROPERTY, the next call: in front of k < 8 zero bits that pad to the byte boundary and are followed by a start
    code, a decode call does exactly what it does on the start code at the boundary *)
 Theorem C15_padding_is_skipped : forall s k rest pos, 0 <= k -> k = (8 - pos mod 8) mod 8 ->
@@ -46,6 +54,7 @@ Theorem C15_start_code_window : forall r k,
 Proof. exact recognize_start_code_window. Qed.
 
 Print Assumptions C15_following_bits_irrelevant.
+Print Assumptions C15_source_following_bits_irrelevant.
 Print Assumptions C15_padding_is_skipped.
 Print Assumptions C15_two_pictures_one_reader.
 Print Assumptions C15_header_frame.
